@@ -295,6 +295,116 @@ def run_case(ctx, sh, case, rng):
         p.close()
 
 
+def run_stray(ctx, sh, case, rng):
+    """A hostile peer sends an unsolicited CHANNEL_OPEN_FAILURE naming an *established* channel, then the id counter
+    is brought back onto that id and more channels are opened.  The established channel must stay registered, keep
+    receiving data, and its id must not be handed to a second channel."""
+    from vf.attacker import Attacker
+    role = case["role"]
+    a = Attacker(role=role, rng=rng)
+    sh.case = case
+    v = a.victim
+    keep = []
+    try:
+        if not a.start(auth=True):
+            ctx.inconclusive("attacker handshake failed (stray failure)")
+            return
+        a.takeover()
+        with v.lock:
+            v._channel_counter = case["start"] & (LIMIT - 1)
+        next_aid = [7000]
+
+        def open_one():
+            """One more channel between attacker and victim; returns the victim's Channel."""
+            aid = next_aid[0]
+            next_aid[0] += 1
+            mark = a.inbox_mark()
+            if role == "client":
+                a.send(cm.OPEN, "session", aid, 1 << 20, 32768)
+                r = a.wait_inbox(lambda e: e["type"] == cm.OPEN_OK, 20, mark)
+                return v.accept(20) if r is not None else None
+            holder = {}
+            th = threading.Thread(target=lambda: holder.__setitem__("c", v.open_session(timeout=30)), daemon=True)
+            th.start()
+            r = a.wait_inbox(lambda e: e["type"] == cm.OPEN, 20, mark)
+            if r is None:
+                return None
+            a.send(cm.OPEN_OK, cm.parse(bytes([cm.OPEN]) + r["payload"])["sender"], aid, 1 << 20, 32768)
+            th.join(30)
+            return holder.get("c")
+
+        first = [open_one() for _ in range(case["before"])]
+        if any(c is None for c in first):
+            ctx.inconclusive("could not establish channels (stray failure)")
+            return
+        keep += first
+        est = first[case["target"] % len(first)]
+        L = est.get_id()
+
+        def deliver(tag):
+            """True/False = delivered or not, decided logically: the victim handles messages in order, so once it has
+            answered a probe sent *after* the data, the data has been dispatched.  None = could not tell."""
+            blob = ("%s-%d" % (tag, L)).encode()
+            a.send(cm.DATA, L, blob)
+            if not a.probe_alive(30):
+                return None
+            if not est.recv_ready():
+                return False
+            est.settimeout(0.0)
+            try:
+                return est.recv(100) == blob
+            except Exception:
+                return False
+
+        if deliver("pre") is not True:
+            ctx.inconclusive("established channel did not receive data before the stray failure")
+            return
+        a.send(cm.OPEN_FAIL, L, case["reason"], "", "")
+        if not a.probe_alive(20):
+            ctx.inconclusive("victim not alive after the stray OPEN_FAILURE")
+            return
+        ctx.count("stray_open_failures_sent")
+        seen = set()
+
+        def flag(sig, what):
+            if sig not in seen:
+                seen.add(sig)
+                ctx.violation(sig, what, dict(case=case, id=L))
+
+        if v._channels.get(L) is not est:
+            flag("established channel dropped from the channel map by a stray OPEN_FAILURE",
+                 "Transport._channels no longer holds the in-use channel %d" % L)
+        d = deliver("post")
+        if d is None:
+            ctx.inconclusive("victim stopped answering probes (stray failure)")
+            return
+        if not d:
+            flag("data for an established channel not delivered after a stray OPEN_FAILURE",
+                 "CHANNEL_DATA for channel %d no longer reaches its Channel" % L)
+        else:
+            ctx.count("data_delivered_after_stray_failure")
+        with v.lock:
+            v._channel_counter = L  # sequential point: bring the counter back onto the established id
+        for _ in range(case["after"]):
+            c2 = open_one()
+            if c2 is None:
+                ctx.inconclusive("open after the stray failure did not complete")
+                return
+            keep.append(c2)
+            ctx.count("opens_after_stray_failure")
+            if c2.get_id() == L and c2 is not est:
+                flag("id of an established channel handed to a second channel after a stray OPEN_FAILURE",
+                     "a new channel got id %d while the established one is still open" % L)
+        if deliver("late") is False:
+            flag("data for an established channel not delivered after a stray OPEN_FAILURE",
+                 "CHANNEL_DATA for channel %d no longer reaches its Channel (after further opens)" % L)
+        ctx.count("stray_failure_cases")
+        return True
+    finally:
+        sh.case = None
+        a.close()
+
+
 def run_race(ctx, sh, rng, trials):
     """Deterministic yield injection for one race: the server's transport thread handles a peer CHANNEL_OPEN and is
     paused inside _next_channel right after ChannelMap.get() reported its candidate id free (before the counter
@@ -362,6 +472,12 @@ def run(ctx):
     sh.install()
     rng = ctx.rng
     ctx.guard(run_race, ctx, sh, rng, ctx.pick(6, 30))
+    for i in range(ctx.pick(4, 24)):
+        j = i * ctx.nshards + ctx.shard
+        case = dict(kind="stray-open-failure-for-established-channel", role=("client", "server")[j % 2], before=1 + j % 3,
+                    target=j // 2, after=1 + j // 3 % 3, reason=1 + j % 4, start=(0, 5, LIMIT - 1, LIMIT - 2)[j // 2 % 4])
+        r = ctx.guard(run_stray, ctx, sh, case, rng)
+        ctx.case(("c23-stray", repr(case)), sample=case if i == 0 else None, nontrivial=bool(r))
     n = ctx.pick(15, 200)
     dl = ctx.deadline(30, 400)
     for i in range(n):
@@ -382,5 +498,8 @@ def run(ctx):
     ctx.require("releases_seen", 200)
     ctx.require("boundary_ids_registered", 20)
     ctx.require("race_trials", 30)
+    ctx.require("stray_failure_cases", 24)
+    ctx.require("data_delivered_after_stray_failure", 24)
+    ctx.require("opens_after_stray_failure", 40)
     ctx.require("peer_open_paused_in_next_channel", 30)
     ctx.require("local_open_started_during_pause", 30)
